@@ -699,7 +699,10 @@ class NumpyModel:
                 return base.w(elts=None, elem=base.elem if base.elem is not None else (join_all(base.elts) if base.elts else None),
                               deps=d, sliced=True, const=None)
             el = base.elem if base.elem is not None else (join_all(base.elts) if base.elts else None)
-            return (el if el is not None else AV()).w(deps=(el.deps if el is not None and el.deps else frozenset()) | d)
+            out = (el if el is not None else AV()).w(deps=(el.deps if el is not None and el.deps else frozenset()) | d)
+            if base.indexed_by is not None:
+                out = out.w(of_index=idx.only('col', 'idx', 'role'), of_list=base.store)
+            return out
         if ty == 'str':
             return AV(ty='str', deps=d)
         if ty == 'ndarray':
@@ -916,7 +919,15 @@ class NumpyModel:
                 kw[cval(idx)] = value
                 self.rebind(interp, st, frame, tv, base.w(kw=kw, elem=join(base.elem, value) if base.elem is not None else None))
             else:
-                self.rebind(interp, st, frame, tv, base.w(elem=join(base.elem, value), keyelem=join(base.keyelem, idx)))
+                adds = aug and isinstance(getattr(interp, 'cur_stmt', None), ast.AugAssign) and isinstance(interp.cur_stmt.op, ast.Add)
+                if not aug and value is not None and value.bin is not None and value.bin[0] == '+':
+                    # d[k] = d[k] + v spelled out
+                    me = interp.sx_build(target)
+                    if me in (value.bin[3], value.bin[4]):
+                        adds = aug = True
+                self.rebind(interp, st, frame, tv, base.w(elem=join(base.elem, value), keyelem=join(base.keyelem, idx) if base.keyelem is not None or not base.empty_init else idx,
+                                                          empty_init=None, accum=True if (adds and not base.overwrite) else (base.accum if aug else None),
+                                                          overwrite=True if not aug else base.overwrite))
             return
         if base.ty == 'list' and name is not None:
             self.rebind(interp, st, frame, tv, base.w(elem=join(base.elem, value), elts=None))
